@@ -316,7 +316,7 @@ def gen_cases(seed: int, n_files: int, max_depth: int, start: int = 0):
         runs = gen_configs(r)
         via = "cli" if i % 150 == 7 else "api"  # a fixed fraction goes through the three CLI commands
         if via == "cli":
-            runs = [{}]
+            runs = [runs[0], runs[1], runs[4]]
         cases.append({"i": i, "items": placed, "text": text, "runs": runs, "via": via})
     return cases
 
@@ -595,8 +595,11 @@ def run_impl(case):
         if case["via"] == "cli":
             for cfg in case["runs"]:
                 allv, err = [], None
+                # the documented (hyphenated) section names in a config file; the loader normalises them (C05 fix cc0b16c)
+                cf = d / "cfg.yaml"
+                cf.write_text(json.dumps(cfg))
                 for cmd in LINTERS:
-                    rc, so, se = run_cli([cmd, "--format", "json", str(f)], cwd=d)
+                    rc, so, se = run_cli([cmd, "--config", str(cf), "--format", "json", str(f)], cwd=d)
                     vs = parse_json_violations(so)
                     if vs is None or rc not in (0, 1):
                         err = {"error": f"{cmd}: rc={rc} stdout={so[:200]} stderr={se[-300:]}"}
@@ -779,11 +782,12 @@ def _known_from_dir(chk: Check):
     own known.d file too, so that the check does not depend on when the shared file was last assembled"""
     p = VERIF / "known.d" / f"{PROP}.json"
     if p.exists():
+        chk.known = {"known": {}, "fixed": {}}  # known.d is the source known_findings.json is assembled from
         for f in json.loads(p.read_text()).get("findings", []):
             if f.get("property") == PROP and f.get("status") == "known":
-                chk.known["known"].setdefault(f["key"], f)
+                chk.known["known"][f["key"]] = f
             elif f.get("property") == PROP and str(f.get("status", "")).startswith("fixed"):
-                chk.known["fixed"].setdefault(f["key"], f)
+                chk.known["fixed"][f["key"]] = f
 
 
 def run(tier: str, seed: int, replay: str | None = None) -> int:
@@ -796,7 +800,7 @@ def run(tier: str, seed: int, replay: str | None = None) -> int:
                 "let with and without later uses) and path calls from the documented std::fs / thread::sleep / std::net vocabulary plus near "
                 "misses, inside and outside spawn_blocking-style wrappers; each file is linted under 5 option settings (defaults, strict, two "
                 "random assignments of allow_in_tests / allow_expect / detect_*, one detect_* off per linter) through the in-process "
-                "Orchestrator (a fraction through the three CLI commands with --format json); a case is non-trivial when the file has a "
+                "Orchestrator (a fraction through the three CLI commands with --config <file> --format json, three settings each); a case is non-trivial when the file has a "
                 "risky call inside an exempting or qualifying context (test item, loop, let, async fn, wrapper, macro) and the implementation "
                 "reports something under some setting; distinct = distinct abstract file")
     chk.trusted_base.append("node_type / push_m (Model/RustSafety.v) and idents (Model/RustSafetyTypes.v): the shape of tree-sitter-rust's parse tree "
